@@ -1083,8 +1083,17 @@ class Judge:
         for e in optional:
             p = lay.staged(e['path'])
             if p in after_in:
-                st[p] = {'typ': 'link', 'link': None, 'resolves_to': e.get('resolves_to'), 'origin': 'model', 'e': e}
+                rt = e.get('resolves_to')
+                if rt and lay.staged(rt) not in st:
+                    rt = None   # the library itself is not there (filtered out, or uninstalled earlier)
+                st[p] = {'typ': 'link', 'link': None, 'resolves_to': rt, 'origin': 'model', 'e': e}
                 maybe.add(p)
+                # the directories leading to an entry the model leaves open are open with it
+                q = os.path.dirname(p)
+                while q not in st and q in after_in and (q == lay.destdir or q.startswith(lay.destdir + '/')):
+                    st[q] = {'typ': 'dir', 'mode': ri.expected_dir_mode(None, self.umask), 'origin': 'implicit'}
+                    maybe.add(q)
+                    q = os.path.dirname(q)
         f = self.compare(st, after_in, o, what)
         if f:
             return f
